@@ -1,5 +1,5 @@
 (* C02 - CTAP2 response encoding carries every member under its specified key, exactly. *)
-From Ctap Require Import Base Schema Wire Typed Procs Inst Tables ProcTables Finite Canonical WireP SerP FramingP ObResponseSide ObRespTables FnShapes Shapes ObShapeResponse AgreeP ObResponseAgree.
+From Ctap Require Import Base Schema Wire Typed Procs Inst Tables ProcTables Finite Canonical WireP SerP FramingP ObResponseSide ObRespTables FnShapes Shapes ObShapeResponse AgreeP ObResponseAgree Deps ObDeps.
 Local Open Scope string_scope.
 Local Open Scope Z_scope.
 
@@ -117,6 +117,10 @@ Qed.
 Theorem c02_modelled_functions_unchanged_response : shapes_hold fn_shapes shapes_response = true.
 Proof. exact generated_shapes_response. Qed.
 
+(* the third-party crates the model represents by hand are pinned at the versions it was written against *)
+Theorem c02_modelled_dependencies_pinned : deps_hold lock_versions cargo_deps = true.
+Proof. exact generated_deps. Qed.
+
 Eval vm_compute in "ASSUMPTIONS c02_message". Print Assumptions c02_message.
 Eval vm_compute in "ASSUMPTIONS c02_parameterless". Print Assumptions c02_parameterless.
 Eval vm_compute in "ASSUMPTIONS c02_next_assertion_same". Print Assumptions c02_next_assertion_same.
@@ -130,3 +134,4 @@ Eval vm_compute in "ASSUMPTIONS c02_generated_tables". Print Assumptions c02_gen
 Eval vm_compute in "ASSUMPTIONS c02_modelled_functions_unchanged_response". Print Assumptions c02_modelled_functions_unchanged_response.
 Eval vm_compute in "ASSUMPTIONS c02_generated_agreement". Print Assumptions c02_generated_agreement.
 Eval vm_compute in "ASSUMPTIONS c02_generated_model_is_spec_model". Print Assumptions c02_generated_model_is_spec_model.
+Eval vm_compute in "ASSUMPTIONS c02_modelled_dependencies_pinned". Print Assumptions c02_modelled_dependencies_pinned.
